@@ -12,6 +12,14 @@ def check(ctx):
     rep.floor("operator table rows", n1, 24)
     rep.floor("comparison guard obligations", n2, 10)
     rep.floor("reduction shapes classified", n3, 7)
+    # an evaluation that does not return gives no answer at all: the evaluator's own loops (ref chasing in `*==`, relationship
+    # closure) carry the same termination certificates as in C09, restricted to the evaluation entry points
+    from rules import entries, loops
+    EE = entries.filter_eval(ctx.prog)
+    lr = loops.LoopRule(ctx, eof_only_errors=True)
+    nloops = lr.run(EE, rep)
+    rep.floor("loops reachable from filter evaluation", nloops, 5)
+    rep.floor("visited-set / work-list loops (L3)", lr.counts["L3"], 1)
     rep.note("Not decided: path resolution through resolvers, list element semantics, how Numbers with different units are ordered - truth values over all filters x records are runtime.")
     return ("Operator tables read from the MIR switch tables compose to the identity on the six operators: lexer spelling -> token -> CmpOp (to_cmp_op) -> "
             "comparator fn item applied by Cmp::eval, and CmpOp -> printed spelling (Display). R-CMPGUARD: every comparator call in Cmp::eval is "
